@@ -135,7 +135,7 @@ def enumerate_inputs(ctx):
                   Bases2={(3, 4), (5, 12)} if q else {(3, 4), (5, 12), (8, 15), (20, 21), (7, 24)},
                   Gen2={-1, 0, 1} if q else {-3, -2, -1, 0, 1, 2, 3},
                   Kinds={"plane", "line", "plane_pts", "normal", "line_pts", "rot", "tnp3", "tnp2"},
-                  SmallNorm=30 if q else 170, ExtraPtDirs={(3, 4, 12), (-12, 3, 4), (4, -12, -3)} if q else set(),
+                  SmallNorm=30 if q else 100, ExtraPtDirs={(3, 4, 12), (-12, 3, 4), (4, -12, -3)},
                   MaxShift=1 if q else 4, Offsets={(1, -2, 3)} if q else {(0, 0, 0), (1, -2, 3)}, PtRefs={0} if q else {0, 2},
                   LineRefs={0, 2} if q else {0, 1, 2, 3}, AllScales=not q)
     if not consts["ExtraPtDirs"]:
